@@ -60,7 +60,7 @@ def gen_case(rng, tier, idx):
     for j, tg in enumerate(rules):
         cfg["HALT%d" % j] = {"class": "TradingHaltRule", "targetMarkets": tg,
                              "triggerChangeRate": rng.choice([0.005, 0.01, 0.02, 0.05, 0.0078125, 0.015625, 0.03125]),
-                             "haltingTimeLength": rng.choice([1, 2, 3, 5, 8])}
+                             "haltingTimeLength": rng.choice([0, 1, 2, 3, 5, 8])}
         if rng.random() < 0.08:
             cfg["HALT%d" % j]["enabled"] = False
     # pushers: quote around the current price with a bias, so that the price walks
